@@ -257,6 +257,29 @@ func genProtoTable(repo string) (string, error) {
 	}
 	sb.WriteString(" ].\n\n")
 
+	// the order of the tests and partial operations in the handlers that read a body
+	sb.WriteString("(* per body-reading function: its tests, allocations, reads and core calls in source order *)\n")
+	sb.WriteString("Definition handler_checks : list (string * list string) :=\n  [ ")
+	for i, name := range []string{"IDENTIFY", "AUTH", "PUB", "MPUB", "DPUB", "readMPUB", "RDY", "SUB", "FIN", "REQ", "TOUCH", "CLS", "getMessageID"} {
+		fd := p.method("protocolV2", name)
+		if fd == nil {
+			fd = p.funcDecl(name)
+		}
+		if fd == nil {
+			return "", fmt.Errorf("function %s not found", name)
+		}
+		if i > 0 {
+			sb.WriteString("\n  ; ")
+		}
+		toks := protoChecks(fd)
+		qs := make([]string, len(toks))
+		for k, t := range toks {
+			qs[k] = strconv.Quote(t)
+		}
+		fmt.Fprintf(&sb, "(%q, [%s])", name, strings.Join(qs, "; "))
+	}
+	sb.WriteString(" ].\n\n")
+
 	// tcp.go: the magic switch
 	handle := p.method("tcpServer", "Handle")
 	if handle == nil {
@@ -313,4 +336,129 @@ func protoBytesLit2(n ast.Node) (string, bool) {
 		return "", false
 	}
 	return protoBytesLit(e)
+}
+
+// protoCmpTokens: the size/count/state comparisons of a condition, in order:
+//   len(params) < k  -> "params<k"      X <= 0 -> "<=0"     X < 0 -> "<0"
+//   X > ...Name      -> ">Name"         ...State) != stateInit -> "state!=stateInit" etc.
+//   len(p) != MsgIDLength -> "len!=MsgIDLength"
+func protoCmpTokens(e ast.Expr, out *[]string) {
+	switch x := e.(type) {
+	case *ast.ParenExpr:
+		protoCmpTokens(x.X, out)
+	case *ast.UnaryExpr:
+		if x.Op == token.NOT {
+			if c, ok := x.X.(*ast.CallExpr); ok {
+				if sel, ok := c.Fun.(*ast.SelectorExpr); ok {
+					switch sel.Sel.Name {
+					case "IsValidTopicName":
+						*out = append(*out, "!validTopic")
+					case "IsValidChannelName":
+						*out = append(*out, "!validChannel")
+					case "IsAuthEnabled":
+						*out = append(*out, "!authEnabled")
+					}
+				}
+			}
+		}
+	case *ast.BinaryExpr:
+		if x.Op == token.LOR || x.Op == token.LAND {
+			protoCmpTokens(x.X, out)
+			protoCmpTokens(x.Y, out)
+			return
+		}
+		op := x.Op.String()
+		lhs := protoOperand(x.X)
+		rhs := protoOperand(x.Y)
+		switch {
+		case lhs == "len(params)":
+			*out = append(*out, "params"+op+rhs)
+		case lhs == "len(p)":
+			*out = append(*out, "len"+op+rhs)
+		case strings.HasSuffix(lhs, "State") || lhs == "state":
+			*out = append(*out, "state"+op+rhs)
+		case rhs == "nil" || lhs == "err":
+			// error plumbing: not a test of the input
+		case rhs == "0":
+			*out = append(*out, op+"0")
+		case x.Op == token.GTR || x.Op == token.GEQ || x.Op == token.LSS || x.Op == token.LEQ:
+			*out = append(*out, op+rhs)
+		}
+	}
+}
+
+// the last identifier of an operand, conversions and option accessors stripped
+func protoOperand(e ast.Expr) string {
+	switch x := e.(type) {
+	case *ast.ParenExpr:
+		return protoOperand(x.X)
+	case *ast.BasicLit:
+		return x.Value
+	case *ast.Ident:
+		return x.Name
+	case *ast.SelectorExpr:
+		return x.Sel.Name
+	case *ast.UnaryExpr:
+		return protoOperand(x.X)
+	case *ast.CallExpr:
+		if id, ok := x.Fun.(*ast.Ident); ok && len(x.Args) == 1 {
+			if id.Name == "len" {
+				return "len(" + protoOperand(x.Args[0]) + ")"
+			}
+			return protoOperand(x.Args[0]) // conversion: int64(x), int(x)
+		}
+		if sel, ok := x.Fun.(*ast.SelectorExpr); ok {
+			if sel.Sel.Name == "LoadInt32" && len(x.Args) == 1 {
+				return protoOperand(x.Args[0])
+			}
+			return sel.Sel.Name
+		}
+	case *ast.BinaryExpr:
+		return protoOperand(x.X) + x.Op.String() + protoOperand(x.Y)
+	}
+	return "?"
+}
+
+var protoCallTokens = map[string]string{
+	"readLen": "readLen", "ReadFull": "ReadFull", "PutMessage": "Put", "PutMessages": "Put", "CheckAuth": "CheckAuth",
+	"GetTopic": "GetTopic", "readMPUB": "readMPUB", "LimitReader": "LimitReader", "Unmarshal": "Unmarshal",
+	"Identify": "Identify", "ByteToBase10": "ByteToBase10", "msToDuration": "msToDuration", "getMessageID": "getMessageID",
+	"FinishMessage": "Core", "RequeueMessage": "Core", "TouchMessage": "Core", "AddClient": "Core",
+	"SetReadyCount": "SetReadyCount", "StartClose": "StartClose", "HasAuthorizations": "HasAuthorizations", "Auth": "Auth",
+}
+
+// protoChecks: conditions of if statements and the calls that matter, in source order
+func protoChecks(fd *ast.FuncDecl) []string {
+	var out []string
+	ast.Inspect(fd.Body, func(n ast.Node) bool {
+		switch x := n.(type) {
+		case *ast.IfStmt:
+			protoCmpTokens(x.Cond, &out)
+		case *ast.ForStmt:
+			out = append(out, "for")
+		case *ast.CallExpr:
+			switch f := x.Fun.(type) {
+			case *ast.Ident:
+				if f.Name == "make" && len(x.Args) >= 2 {
+					if len(x.Args) == 3 {
+						out = append(out, "makecap("+protoOperand(x.Args[2])+")")
+					} else {
+						out = append(out, "make("+protoOperand(x.Args[1])+")")
+					}
+				} else if t, ok := protoCallTokens[f.Name]; ok {
+					out = append(out, t)
+				}
+			case *ast.SelectorExpr:
+				if t, ok := protoCallTokens[f.Sel.Name]; ok {
+					out = append(out, t)
+				}
+			}
+		case *ast.IndexExpr:
+			if id, ok := x.X.(*ast.Ident); ok && (id.Name == "params" || id.Name == "p") {
+				out = append(out, id.Name+"["+protoOperand(x.Index)+"]")
+			}
+		}
+		return true
+	})
+	return out
 }
